@@ -15,6 +15,7 @@ package random
 //@ panics-iff n == 0
 //@ assigns p.uintnBuffer[:], obj(p.randCore)
 //@ ensures [range] result < n
+//@ ensures [result-is-masked-sample] result == (le64(p.uintnBuffer[:]) & smear(n-1))
 //@ ensures unchanged(p.randCore)
 //@ loop 1 invariant [size-range] 0 <= size && size <= 8
 //@ loop 1 invariant [size-shift] tmp == (max >> uint64(8*size))
@@ -23,7 +24,8 @@ package random
 //@ loop 2 invariant [mask-tight] mask == 0 || (mask >> 1) < max
 //@ loop 3 invariant [size-done] 0 <= size && size <= 8
 //@ loop 3 invariant [mask-covers] max <= mask && (mask >> uint64(8*size)) == 0
-//@ loop 3 invariant [masked-fresh-bytes] random == n || random == (le64z(p.uintnBuffer[:], size) & mask)
+//@ loop 3 invariant [mask-exact] mask == smear(max)
+//@ loop 3 invariant [masked-fresh-bytes] random == n || (random == (le64z(p.uintnBuffer[:], size) & mask) && random == (le64(p.uintnBuffer[:]) & mask))
 //@ loop 3 invariant prgInv(p) && unchanged(p.randCore)
 //@ loop 3 guard [reject-only-above-max] random > max
 //@ loop 3 exit  [accept-all-up-to-max] random <= max
